@@ -98,9 +98,14 @@ let hwsfx ws = if ws = [] then "" else "!" ^ String.concat "," (List.map hwarn_t
 let ty_of s =
   if s.[0] = 'o' then Snap.Ordinal (z_of_int (int_of_string (String.sub s 1 (String.length s - 1))))
   else Snap.Uuid (Snap.uuid_of_bytes (unhex (String.sub s 1 (String.length s - 1))))
+(* printing a UUID divides a 128-bit inductive Z sixteen times: remember the few that occur *)
+let uuid_cache = ref []
 let ty_txt = function
   | Snap.Ordinal o -> "o" ^ zs o
-  | Snap.Uuid u -> "u" ^ hex (Snap.uuid_to_bytes u)
+  | Snap.Uuid u ->
+    (match List.assoc_opt u !uuid_cache with
+     | Some s -> s
+     | None -> let s = "u" ^ hex (Snap.uuid_to_bytes u) in uuid_cache := (u, s) :: !uuid_cache; s)
 let ints_of s = if s = "" then [] else List.map (fun x -> z_of_int (int_of_string x)) (String.split_on_char ',' s)
 let item_of s =
   match String.split_on_char '/' s with
